@@ -398,6 +398,6 @@ pub fn run(tier: Tier) -> i32 {
 }
 
 pub fn replay(v: &serde_json::Value) -> i32 {
-    println!("REPLAY: C20 case {} — re-run ./check C20 (deterministic enumeration)", v["replay"]);
-    2
+    // the cases of this check are enumerated, not stored: re-run the deterministic enumeration for the signature
+    fp_harness::report::replay_by_rerun(v, &|tier| run(tier))
 }
